@@ -50,5 +50,27 @@ package binary
 //@   ensures fixed_ndarray_shape_is_the_declared_shape_reversed: isGenT(t) && typeof(dim(t)) == *dsl.Array && dim(t).(*dsl.Array) != nil && dim(t).(*dsl.Array).IsFixed() ==> (len(lastArg(strings.Join, 0)) == len(*dim(t).(*dsl.Array).Dimensions) && (forall j in 0..len(*dim(t).(*dsl.Array).Dimensions) :: lastArg(strings.Join, 0)[j] == strconv.FormatUint(*(*dim(t).(*dsl.Array).Dimensions)[len(*dim(t).(*dsl.Array).Dimensions)-1-j].Length, 10)))
 //@   ensures map_key_then_value: isGenT(t) && typeof(dim(t)) == *dsl.Map && dim(t).(*dsl.Map) != nil ==> result == "yardl.binary.MapSerializer(" + typeSerializer(dim(t).(*dsl.Map).KeyType, contextNamespace, namedType) + ", " + typeSerializer(gen(t).ToScalar(), contextNamespace, namedType) + ")"
 
+// A record is written as its fields in declaration order, each with the serializer of its type: the generated class
+// fills field_serializers{1..n} in that order (MATLAB indices start at 1) and its write / read methods pass and receive
+// the field values in the same order.
+//@ func writeRecordSerializer$1$1$1$1
+//@   property C14,C03
+//@   iteration 0: slot_i_plus_1_holds_the_serializer_of_field_i: emitted("field_serializers{%d} = %s;\n") == 1 && emittedArg("field_serializers{%d} = %s;\n", 0, 0, int) == i + 1 && emittedArg("field_serializers{%d} = %s;\n", 0, 1, string) == typeSerializer(field.Type, ns.Name, nil)
+//@   ensures the_list_is_handed_to_the_base_class: emitted("self@yardl.binary.RecordSerializer('%s', field_serializers);\n") == 1
+//@ func writeRecordSerializer$1$1$1$2
+//@   property C14,C03
+//@   invariant 0: len(fieldAccesses) == len(rec.Fields)
+//@   invariant 0: forall k in 0..rangeindex+1 :: fieldAccesses[k] == "value." + common.FieldIdentifierName(rec.Fields[k].Name)
+//@   ensures field_values_are_passed_in_declaration_order: len(lastArg(strings.Join, 0)) == len(rec.Fields) && (forall k in 0..len(rec.Fields) :: lastArg(strings.Join, 0)[k] == "value." + common.FieldIdentifierName(rec.Fields[k].Name))
+//@   ensures the_values_are_written: emitted("self.write_(outstream, %s);\n") == 1
+//@   ensures the_values_are_written2: emittedArg("self.write_(outstream, %s);\n", 0, 0, string) == lastResult(strings.Join)
+//@   ensures the_values_are_written3: lastArg(strings.Join, 1) == ", "
+//@ func writeRecordSerializer$1$1$1$3
+//@   property C14,C03
+//@   invariant 0: len(fieldWrites) == len(rec.Fields)
+//@   invariant 0: forall k in 0..rangeindex+1 :: fieldWrites[k] == common.FieldIdentifierName(rec.Fields[k].Name) + "=fields{" + itoa(k + 1) + "}"
+//@   ensures field_k_takes_value_k: len(lastArg(strings.Join, 0)) == len(rec.Fields) && (forall k in 0..len(rec.Fields) :: lastArg(strings.Join, 0)[k] == common.FieldIdentifierName(rec.Fields[k].Name) + "=fields{" + itoa(k + 1) + "}")
+//@   ensures all_values_are_read_first: emitted("fields = self.read_(instream);\n") == 1
+
 // Output and diagnostics may not depend on the iteration order of a Go map (C12): decided per `range` over a map.
 //@ map-order C12 package
